@@ -412,7 +412,7 @@ impl SchemaConverter {
                         } else {
                             "any".to_string()
                         };
-                        return format!("{}[]", item_type);
+                        return Self::array_type(&item_type);
                     }
                     "object" => {
                         // Object with additionalProperties
@@ -455,11 +455,33 @@ impl SchemaConverter {
         if types.is_empty() {
             return if nullable { "nil" } else { "any" }.to_string();
         }
-        let mut result = types.join(" | ");
+        // `?` is only valid behind a complete type: a nullable member makes
+        // the whole union nullable.
+        let mut nullable = nullable;
+        let members: Vec<&str> = types
+            .iter()
+            .map(|ty| match ty.strip_suffix('?') {
+                Some(inner) => {
+                    nullable = true;
+                    inner
+                }
+                None => ty.as_str(),
+            })
+            .collect();
+        let mut result = members.join(" | ");
         if nullable {
             result.push('?');
         }
         result
+    }
+
+    /// Array of `item_type`; unions and nullable types need parentheses.
+    fn array_type(item_type: &str) -> String {
+        if item_type.contains(" | ") || item_type.ends_with('?') {
+            format!("({})[]", item_type)
+        } else {
+            format!("{}[]", item_type)
+        }
     }
 
     /// Map JSON Schema primitive type names to Lua type names.
@@ -878,6 +900,25 @@ mod tests {
 
         let output = converter().convert(&schema).annotation_text;
         assert!(output.contains("---@alias schema.Broken\n---| string\n"));
+    }
+
+    #[test]
+    fn test_nullable_types_inside_unions_and_arrays() {
+        let schema = json!({
+            "title": "Config",
+            "type": "object",
+            "properties": {
+                "a": { "anyOf": [{ "type": ["string", "null"] }, { "type": "integer" }] },
+                "b": { "type": "array", "items": { "type": ["string", "null"] } },
+                "c": { "type": "array", "items": { "type": ["string", "integer"] } }
+            },
+            "required": ["a", "b", "c"]
+        });
+
+        let output = converter().convert(&schema).annotation_text;
+        assert!(output.contains("---@field a string | integer?\n"));
+        assert!(output.contains("---@field b (string?)[]\n"));
+        assert!(output.contains("---@field c (string | integer)[]\n"));
     }
 
     #[test]
